@@ -306,7 +306,7 @@ def stmt_bounds(st, i, j, lo, hi):
     return a, b
 
 
-def build_fn(fs, repo, effectful, table_keys):
+def build_fn(fs, repo, effectful, table_keys, canary=False):
     """returns GenFn with out_lines filled"""
     g = GenFn(fs)
     path = os.path.join(repo, fs.src)
@@ -519,6 +519,11 @@ def build_fn(fs, repo, effectful, table_keys):
         log.append('TRUSTED: body dropped, contract assumed')
         g.out_lines = _pieces_to_lines(pieces, g, text)
         return g
+
+    if canary:
+        # vacuity guard: the fall-through path of the body must NOT be able to prove false
+        add(st[body_open][3], ' let r__canary = {')
+        add(st[body_close][2], '\n}; assert(false); r__canary\n', ('canary', fs.fid))
 
     # ---- R1 at call sites
     eff = set(effectful) | set(table_keys) | set(fs.extra_effectful)
